@@ -462,6 +462,8 @@ ModRefused(c) == LET r == Reach(c.g, MainImports(c.site), {}) IN
 
 (* ------------------------------------------- C10: fragment sessions *)
 \* top-level statement sequences; a session cuts them into consecutive fragments
+ParamSeq == <<ParamV(<<"p", "rest">>), Def("x", Id("rest")), Var("y"), ExprS(Arr(<<Id("p"), Id("rest"), Id("x"), Id("y")>>)), ExprS(C1(Id("len"), Id("rest")))>>
+FragArgs(body) == IF body = ParamSeq THEN <<VInt(1), VInt(2), VInt(3)>> ELSE <<>>
 FragSeqs == <<
   \* closure created, later assignment to the captured variable, calls in later fragments
   <<Def("x", I(1)), Def("f", Fn0(<<Inc("x"), Ret(Id("x"))>>)), Asg("x", I(10)), ExprS(C0(Id("f"))), ExprS(Arr(<<Id("x"), C0(Id("f"))>>))>>,
@@ -510,6 +512,8 @@ FragSeqs == <<
   <<Global(<<"gv">>), If(Id("gv"), <<ExprS(I(1))>>, <<>>), Def("z", I(7)), For(<<Def("i", I(0))>>, Bin("<", Id("i"), I(2)), <<Inc("i")>>, <<ExprS(Id("i"))>>), If(Id("z"), <<ExprS(Id("z"))>>, <<>>)>>,
   \* a global written by one fragment and only read by later ones (also in a session made without a globals object)
   <<Global(<<"gv">>), Asg("gv", I(5)), ExprS(Id("gv")), Def("f", Fn0(<<Asg("gv", Bin("+", Id("gv"), I(1))), Ret(Id("gv"))>>)), ExprS(Arr(<<C0(Id("f")), Id("gv")>>))>>,
+  \* a session started with arguments whose first fragment declares a variadic parameter together with other variables
+  ParamSeq,
   \* (a constant declaration emits no code: a fragment ending in one reports whatever value the statement before left, so it is not put last)
   <<Var("len"), Const("int", I(3)), Asg("len", Fn(<<"v">>, FALSE, <<Ret(S("mine"))>>)), ExprS(C1(Id("len"), S("ab"))), ExprS(Arr(<<Id("int"), C1(Id("len"), Arr(<<>>))>>))>>
 >>
@@ -527,8 +531,8 @@ FragRun(b, i, env, st, acc) ==
        ELSE LET r == ExecS(s, env, st, 0) IN
             IF r.o = Norm THEN FragRun(b, i + 1, r.env, r.st, Append(acc, [ok |-> TRUE, v |-> VUndef, nlog |-> Len(r.st.log)]))
             ELSE [res |-> Append(acc, [ok |-> FALSE, v |-> San(r.o[2], r.st), nlog |-> Len(r.st.log)]), st |-> r.st]
-FragExp(c) == LET p == [P0(FragSeqs[c.s]) EXCEPT !.mods = ModsOf(1)]
-                  st0 == [St0 EXCEPT !.msrc = p.mods]
+FragExp(c) == LET p == [P0(FragSeqs[c.s]) EXCEPT !.mods = ModsOf(1), !.args = FragArgs(FragSeqs[c.s])]
+                  st0 == [St0 EXCEPT !.msrc = p.mods, !.args = p.args]
                   r == FragRun(p.body, 1, Push(<<>>), st0, <<>>)
               IN [steps |-> r.res, log |-> [i \in 1..Len(r.st.log) |-> San(r.st.log[i], r.st)]]
 
@@ -684,7 +688,7 @@ ProgOf(c) == CASE c.f \in {"closure", "assign", "const", "catchvar"} -> P0(FamSe
                [] c.f = "dis" -> [P0(ShadowProg(c.nm, c.i)) EXCEPT !.disabled = c.d]
                [] c.f = "dismod" -> [DisModProg(c) EXCEPT !.disabled = c.d]
                [] c.f = "mod" -> ModProg(c)
-               [] c.f = "frag" -> [P0(FragSeqs[c.s]) EXCEPT !.mods = ModsOf(1)]
+               [] c.f = "frag" -> [P0(FragSeqs[c.s]) EXCEPT !.mods = ModsOf(1), !.args = FragArgs(FragSeqs[c.s])]
                [] c.f = "epi" -> P0(EpiProg(c))
                [] c.f = "inv" -> InvProg(c)
                [] c.f = "invseq" -> InvSeqProg(c)
